@@ -132,7 +132,7 @@ for line in sys.stdin:
         out.write('ERR %s load %s\n' % (mid, oneline(LOAD_ERR)))
         continue
     try:
-        if cmd == 'ENC':
+        if cmd in ('ENC', 'ENCX'):
             try:
                 obj, _ = parse(toks, 2)
             except Unsupported as u:
@@ -143,6 +143,10 @@ for line in sys.stdin:
                 buf.write_bytes(PRE)
                 PRE = b''
             obj.encode(buf)
+            if cmd == 'ENCX':
+                # the same object encoded a second time, into a fresh buffer
+                buf = ByteBuf()
+                obj.encode(buf)
             out.write('ENC %s %s\n' % (mid, binascii.hexlify(buf.to_bytes()).decode()))
         elif cmd == 'DEC':
             cls = find_class(toks[2])
